@@ -292,6 +292,8 @@ func NewNilAnalysis(p *Prog) *NilAnalysis {
 var externNeverNil = map[string]bool{
 	"fmt.Errorf": true, "errors.New": true, "errors.Join": false,
 	"context.WithValue": true, "context.Background": true, "context.TODO": true, "context.WithCancel": true,
+	// (*url.URL).ResolveReference allocates its result (documented: "always returns a new URL instance")
+	"net/url.ResolveReference": true,
 }
 
 // resultNeverNil: does result idx of fn never evaluate to nil? paramIdx >= 0: nil only if that param is nil.
